@@ -695,9 +695,6 @@ X8_ALLOW = {
     (ENC + "::Envelope::<'a>::from_bytes", "assert:BoundsCheck { len: move _13, index: copy _12 }", 1): "buf[0] under the guard len > 1 + NONCE_LEN (checked by X4 `length-check`)",
     (ENC + "::Envelope::<'a>::from_bytes", "indexing", 1): "buf[1..1+NONCE_LEN] under the guard len > 1 + NONCE_LEN",
     (ENC + "::Envelope::<'a>::from_bytes", "indexing", 2): "buf[1+NONCE_LEN..] under the guard len > 1 + NONCE_LEN",
-    (ENC + "::Cryptor::make_aad", "assert:BoundsCheck { len: const 17_usize, index: copy _4 }", 1): "aad[0] of a [u8; 17]",
-    (ENC + "::Cryptor::make_aad", "indexing", 1): "aad[1..] of a [u8; 17]",
-    (ENC + "::Cryptor::make_aad", "copy_from_slice", 1): "16 bytes of a uuid into aad[1..] of a [u8; 17]",
 }
 
 
@@ -708,7 +705,32 @@ def rule_X8(F, R):
     if start not in F.bodies:
         R.missing("X8", "Cryptor::unseal")
         return
-    cone = sorted(q for q in F.reachable_from([start]) if q in F.bodies)
+    # only code that handles the untrusted bytes: unseal itself and, transitively, the crate functions
+    # that receive a value derived from its `payload` argument
+    cone = []
+    work = [(start, None)]
+    seen_fn = set()
+    while work:
+        fn, tainted = work.pop()
+        if fn in seen_fn or fn not in F.bodies:
+            continue
+        seen_fn.add(fn)
+        cone.append(fn)
+        fb = F.real_body(fn)
+        if fb is None:
+            continue
+        fl = flow_of(fb)
+        for (i, t) in cfg_of(fb).calls():
+            for callee in call_names(t):
+                if callee in F.bodies and callee not in seen_fn:
+                    for a in t["args"]:
+                        if "c" in a or "m" in a:
+                            sl = fl.slice_operand(a)
+                            bytes_root = any(r[0] == "param" and fb["locals"][r[1]].get("name") == "payload" and any(len(e) > 2 and e[2] == "payload" for e in (r[2] or ()) if e[0] == "f") for r in sl.roots)
+                            if (fn == start and bytes_root) or (fn != start and sl.params()):
+                                work.append((callee, None))
+                                break
+    cone = sorted(set(cone))
     n = 0
     used = set()
     for q in cone:
@@ -724,5 +746,5 @@ def rule_X8(F, R):
                 R.ok("X8", "allow-listed: %s #%d in %s (%s)" % (kind, k, q.split("::")[-1], allow[key2]), where(b, sp=sp))
             else:
                 R.violation("X8", q, "%s#%d" % (re.sub(r"_\d+", "_N", kind), k), "%s at %s is reachable while opening bytes received from a remote: data that is not a well-formed envelope must be answered with an error, not a panic" % (desc, loc(sp)), where(b, sp=sp))
-    R.floor("X8", "panic sites examined in the cone of Cryptor::unseal", n, 8)
+    R.floor("X8", "panic sites examined in the cone of Cryptor::unseal", n, 5)
     R.info("X8", "functions in the cone: %s" % ", ".join(x.split("::")[-1] for x in cone))
